@@ -110,7 +110,9 @@ def run_one(res, ctx, root, rng, idx):
         args.append(dot)
     order = list(range(nfiles))
     rng.shuffle(order)
-    full = ["--no-multiprocessing", "--root", str(root), "annotate"] + args + [str(files[j]) for j in order]
+    cwd, gargs, fargs = annot.place(rng, root, [files[j] for j in order])
+    full = gargs + ["annotate"] + args + fargs
+    spelled = {j: fargs[i] for i, j in enumerate(order)}  # the tool's messages name a file the way it was given
 
     # ---------------- expectation per file
     usage = cause == "mutex"
@@ -152,7 +154,7 @@ def run_one(res, ctx, root, rng, idx):
     before = snapshot(root)
     FS.begin()
     try:
-        r = run_cli(full, cwd=str(root))
+        r = run_cli(full, cwd=cwd)
     finally:
         events = FS.end()
     after = snapshot(root)
@@ -180,7 +182,7 @@ def run_one(res, ctx, root, rng, idx):
     reported_ok = set()
     for line in r.stdout.splitlines():
         for j, f in enumerate(files):
-            for cand in (str(f), str(f) + ".license"):
+            for cand in (spelled[j], spelled[j] + ".license"):
                 if line.startswith("Error:") and f"'{cand}'" in line:
                     reported_fail.add(j)
                 if line.startswith("Successfully changed header of ") and line.endswith(cand):
